@@ -73,7 +73,19 @@ WizPass == << CHa, DQ, SP >>
 FamWizard == { Desc("wizard", "wizard", << >>, << v, WizPass >>) : v \in SeqsUpTo(ValueChars, WizLen) }
              \cup { Desc("wizard", "wizard", << >>, << WizUser, v >>) : v \in SeqsUpTo(ValueChars, WizLen) }
 
-MCFiles == FamUser \cup FamPass \cup FamPairs \cup FamMulti \cup FamPad \cup FamMalformed \cup FamCanary \cup FamWizard
+(* User names that differ only in letter case, or by one being a prefix of the other, each with a password of
+   its own, in every order and every subset: an export (or a login) must never cross between such twins.   *)
+CaseNames == { Str("basic", << "Z", "a" >>), Str("basic", << "z", "a" >>), Str("literal", << "Z", "A" >>), Str("basic", << "Z" >>) }
+CasePass == [ n \in CaseNames |->
+                CASE n.toks = << "Z", "a" >> -> Str("basic", << "a", "sq", "Z" >>)
+                  [] n.toks = << "z", "a" >> -> Str("literal", << "Z", "bs", "a" >>)
+                  [] n.toks = << "Z", "A" >> -> Str("basic", << "hash", "a", "sp" >>)
+                  [] OTHER -> Str("basic", << "a", "a" >>) ]
+Injective(sq) == \A i, j \in DOMAIN sq : i # j => sq[i] # sq[j]
+FamCase == { Desc("case", "tables", [ i \in DOMAIN ns |-> PlainEntry(ns[i], CasePass[ns[i]]) ], << >>) :
+               ns \in { x \in UNION { [1..k -> CaseNames] : k \in 1..3 } : Injective(x) } }
+
+MCFiles == FamUser \cup FamPass \cup FamPairs \cup FamMulti \cup FamPad \cup FamMalformed \cup FamCanary \cup FamWizard \cup FamCase
 
 --------------------------------------------------------------------------
 (* start-up rows *)
@@ -87,7 +99,9 @@ BaseRows == { [ creds |-> "one", listen |-> "any4", protos |-> { "http1", "http2
               [ creds |-> "absent", listen |-> "lo4", protos |-> { "quic" }, hosts |-> "okAll", rp |-> "valid", rules |-> "valid" ] }
 Dims == { "creds", "listen", "protos", "hosts", "rp", "rules" }
 Off(r, b) == Cardinality({ d \in Dims : r[d] # b[d] })
-MCRows == IF RowMode = "full" THEN AllRows ELSE { r \in AllRows : \E b \in BaseRows : Off(r, b) <= 2 }
+PairRows == { r \in AllRows : \E b \in BaseRows : Off(r, b) <= 2 }
+\* thorough: the full product over the core host files, plus the pairwise rows for the generated host files
+MCRows == IF RowMode = "full" THEN { r \in AllRows : r.hosts \in CoreHostNames } \cup PairRows ELSE PairRows
 
 --------------------------------------------------------------------------
 (* rules files for the totality job (C09): every combination of missing / wrongly typed / odd fields.
@@ -109,6 +123,11 @@ RuleFiles ==
 
 ASSUME SkipRules \/ \A rf \in RuleFiles : PrintT(<< "RULEFILE", ToJson(rf) >>)
 
+\* every hosts file on its own: TlsHostsSettings::builder()...build() and Core::reload_tls_hosts_settings
+ASSUME SkipRules \/ \A n \in DOMAIN Hosts :
+          PrintT(<< "HOSTS", ToJson([ name |-> n, cls |-> Hosts[n].cls, hs |-> Hosts[n].hs, hoststoml |-> HostsText(Hosts[n].hs), expect |-> HostsVerdict(n),
+                                      dup |-> Hosts[n].dup, unloadable |-> Hosts[n].unloadable ]) >>)
+
 --------------------------------------------------------------------------
 (* vector export *)
 
@@ -125,6 +144,7 @@ FieldClass(w) ==
 ClassRank == << "missing-key", "nonstring", "multiline", "literal", "escape", "innerpad", "comment", "plain" >>
 ClassOf(f) ==
     IF f.shape # "tables" THEN f.shape
+    ELSE IF f.fam = "case" THEN "casetwin"
     ELSE LET cs == UNION { { FieldClass(e.u), FieldClass(e.p), IF e.trail = "c" THEN "comment" ELSE "plain" } : e \in Range(f.entries) } IN
          ClassRank[CHOOSE i \in DOMAIN ClassRank : ClassRank[i] \in cs /\ \A j \in 1..(i - 1) : ClassRank[j] \notin cs]
 
@@ -139,6 +159,8 @@ EmitVector ==
             accept    |-> WrittenPairs(file),
             probes    |-> { << pr[1], pr[2], pr \in WrittenPairs(file) >> : pr \in Probes(file) \cup WrittenPairs(file) },
             exports   |-> { << pr[1], { q[2] : q \in { x \in WrittenPairs(file) : x[1] = pr[1] } } >> : pr \in WrittenPairs(file) },
+            \* names that are not configured but resemble a configured one: an export must be refused
+            exportsRefused |-> NearNames(WrittenNames(file)),
             pair      |-> file.pair,
             nontrivial |-> (file.shape = "tables" /\ \E e \in Range(file.entries) :
                                 \/ e.u.kind # "str" \/ e.p.kind # "str"
@@ -155,11 +177,14 @@ EmitRow ==
             vpn   |-> VpnText(row),
             hoststoml |-> HostsText(Hosts[row.hosts].hs),
             expect |-> StartVerdict(row),
+            expectSettings |-> SettingsVerdict(row),
+            listenText |-> Listen[row.listen].text,
+            rpBuildable |-> Rp[row.rp].bld, rpAddr |-> Rp[row.rp].addr, rpMask |-> Rp[row.rp].mask,
             causes |-> (IF row.creds = "absent" /\ ~ Listen[row.listen].loopback THEN { "no-credentials" } ELSE {})
                        \cup (IF row.protos = {} THEN { "no-protocol" } ELSE {})
                        \cup (IF row.protos = { "absent" } THEN { "no-protocol-table" } ELSE {})
-                       \cup (IF Hosts[row.hosts].dup THEN { "hosts-dup:" \o row.hosts } ELSE {})
-                       \cup (IF Hosts[row.hosts].unloadable THEN { "hosts-unloadable:" \o row.hosts } ELSE {})
+                       \cup (IF Hosts[row.hosts].dup THEN { "hosts-dup:" \o Hosts[row.hosts].cls } ELSE {})
+                       \cup (IF Hosts[row.hosts].unloadable THEN { "hosts-unloadable:" \o Hosts[row.hosts].cls } ELSE {})
                        \cup (IF ~ Rp[row.rp].valid THEN { "reverse-proxy:" \o row.rp } ELSE {}),
             stage  |-> stage ]) >>)
 
